@@ -482,7 +482,8 @@ def check_small(case, v):
             compare_exact(v, game, facts, x.prob, pstar, 1e-6, x.it_reach, lab)
         elif o.kind == "nosol" and x.prune:
             v.cls("no_solution")
-            if pstar[0] != 0:
+            # a positive value within the convergence tolerance may still be held at 0 when the sweeps stop
+            if pstar[0] > tol(1e-6, facts.T, 0):
                 v.fail("nosol-but-positive", f"{lab} raised no-solution but exact value of state 0 is {pstar[0]}")
         elif o.kind == "budget":
             v.inconclusive = "sweep budget exceeded (reported by C06)"
